@@ -16,7 +16,7 @@ func checkC17(r *Run) {
 		ruleReadErr(r, p)
 		ruleOutDirect(r, p)
 	}
-	r.Floor("A17a", 50)
+	r.Floor("A17a", 30)
 	r.Floor("A17b", 6)
 	r.Floor("A23", 8)
 	r.Floor("READERR", 6)
